@@ -23,7 +23,10 @@ Definition avail (m : node) : Prop :=
 Definition flag_ok (sized : bool) (m : node) (f : flag) : Prop :=
   (forall h, fhash f = Some h -> h = H (spec_enc H m) /\ (sized = true -> big H m = true)) /\
   (fdirty f = false ->
-     canon m = true /\ all_fits H m /\ covers H d m /\ (forall h, fhash f = Some h -> stored H d m)).
+     canon m = true /\ all_fits H m /\ covers H d m /\ (forall h, fhash f = Some h -> stored H d m)) /\
+  (* a clean node without cached hash is an embedded (small) child: decodeNode of an
+     inline reference, or a small child after Commit; never the root, never a big node *)
+  (fhash f = None -> fdirty f = false -> sized = true /\ big H m = false).
 
 Inductive lzf : bool -> node -> node -> Prop :=
 | lzf_hash s m : avail m -> lzf s m (NHash (H (spec_enc H m)))
